@@ -43,3 +43,38 @@ func FuzzServer(f *testing.F) {
 		}
 	})
 }
+
+// FuzzClient: the same search at the client positions (responses 11..71 delivered to the
+// real DI/TO0/TO1/TO2 client roles by the man-in-the-middle link) with the oracle of
+// evalClient (no panic, the role returns within the watchdog, bounded allocation).
+func FuzzClient(f *testing.F) {
+	for i := range clientPositions {
+		f.Add(byte(i), byte(0), byte(1), []byte{byte(i), 3, 0, 0})
+		f.Add(byte(i), byte(1), byte(0), []byte{0x80})
+		f.Add(byte(i), byte(2), byte(1), []byte{5, 0xff, 0xff, 3, 2, 0, 1, 0})
+	}
+	f.Add(byte(6), byte(0), byte(0), []byte{0xd2, 0x84, 0x40, 0xa0, 0xf6, 0x40})
+	f.Add(byte(7), byte(0), byte(0), []byte{0x82, 0x00, 0xd2, 0x84, 0x43, 0xa1, 0x01, 0x27, 0xa0, 0xf6, 0x40})
+	f.Fuzz(func(t *testing.T, pos, cfg, mode byte, in []byte) {
+		if len(in) > 4096 {
+			t.Skip()
+		}
+		d := caseDesc{Side: "client", Pos: clientPositions[int(pos)%len(clientPositions)], Cfg: int(cfg) % len(cfgs)}
+		if mode%2 == 0 || len(in) < 4 {
+			d.In = input{Kind: "random", Hex: hex.EncodeToString(in)}
+		} else {
+			arg := int64(in[1])<<8 | int64(in[2])
+			if in[3]&1 == 1 {
+				arg = -arg
+			}
+			d.In = input{Kind: "mutate", Node: int(in[0]), Arg: arg, Resign: in[3]&2 == 2}
+			if len(in) >= 8 {
+				d.In.Kind, d.In.Node2, d.In.Arg2 = "mutate2", int(in[4]), int64(in[5])<<8|int64(in[6])
+			}
+		}
+		res := evalClient(d)
+		if res.Fail != "" && res.Key != "setup" {
+			t.Fatalf("VIOLATION C10/fuzz key=%s: %s", res.Key, res.Fail)
+		}
+	})
+}
